@@ -25,7 +25,7 @@ def parseSpec (s : String) : Option ArgSpec :=
   let (body, d) := parseDelta s
   let rest := (body.drop 1).toString
   match (body.take 1).toString with
-  | "m" => some ⟨.m, d⟩
+  | "m" => if rest == "0" then some ⟨.m0, d⟩ else if rest.isEmpty then some ⟨.m, d⟩ else none
   | "o" => some ⟨.o (rest == "1"), d⟩
   | "s" => some ⟨.s, d⟩
   | "v" => some ⟨.v, d⟩
